@@ -593,6 +593,10 @@ func Build(g Truth, p Pool) *astisub.Subtitles {
 		s.Regions[id] = &astisub.Region{ID: id, InlineStyle: &astisub.StyleAttributes{
 			WebVTTLines: r.Lines, WebVTTWidth: strOr(p.Width, r.Width), WebVTTScroll: strOr(p.Scroll, r.Scroll),
 			WebVTTRegionAnchor: strOr(p.Anchor, r.Anchor), WebVTTViewportAnchor: strOr(p.Viewport, r.Viewport)}}
+		if r.Lines == 0 && r.Width == 0 && r.Scroll == 0 && r.Anchor == 0 && r.Viewport == 0 && p.ColUpper {
+			// a region that carries nothing but its identifier may have no attribute object at all
+			s.Regions[id].InlineStyle = nil
+		}
 	}
 	for _, c := range g.Cues {
 		it := &astisub.Item{StartAt: time.Duration(c.S) * time.Millisecond, EndAt: time.Duration(c.E) * time.Millisecond, Index: c.ID}
